@@ -485,8 +485,9 @@ fn emit(sink: &mut Sink, w: &World, tag: &str) {
     );
 }
 
-/// The candidate defect, scripted: two valid keys of one usage share a valid_from second; revoking
-/// one leaves the other valid but unused until the next reload.
+/// The defect fixed by 2dbb6f7, scripted: two valid keys of one usage share a valid_from second;
+/// before the fix revoking one left the other valid but unused until the next reload (the sign
+/// after the revoke fell back to the key of second 0). Exits 1 if the defect is present.
 fn probe(args: &Args) {
     let mut rng = Rng::new(args.seed);
     let mut w = World {
@@ -518,6 +519,11 @@ fn probe(args: &Args) {
     let reloaded = w.steps.last().expect("step").out.clone();
     println!("probe: keys at second 5: signer={} sibling={}; revoke sibling -> sign(t=6s) = {:?}; after commit+reload = {:?}", signer, other, after, reloaded);
     println!("probe: expected by the property: still {} (valid, newest, started)", signer);
+    if after != Out::Sign(Ok(signer.clone())) || reloaded != Out::Sign(Ok(signer)) {
+        println!("probe: DEFECT PRESENT");
+        std::process::exit(1);
+    }
+    println!("probe: ok");
 }
 
 fn main() {
@@ -529,9 +535,9 @@ fn main() {
     let mut rng = Rng::new(args.seed);
     let mut sink = Sink::new(&args, "KV.C34.Model", 12);
     sink.rule = "random histories (12..40 random ops after creation, then every produced token is verified on every replica) of assert/rotate/revoke/sign/verify/commit/abort/replicate/retain on 1..3 replicas of one real key object with a random subset of the usages es256/hs256/rs256/jwe-a128gcm/hkdf; times in 0..6.9 s so that equal valid_from seconds are frequent; change ids mostly increasing, sometimes reused; trim ids none/random/everything. non-trivial = some token is verified after the key that signed it was revoked somewhere".into();
-    let n = if args.thorough { 2400 } else { 260 };
+    let n = if args.thorough { 2400 } else { 200 };
     for hid in 0..n {
-        let rs = rng.chance(1, 12);
+        let rs = rng.chance(1, 16);
         let len = if rs { rng.range(6, 14) } else { rng.range(12, 40) };
         let mut hr = rng.fork();
         let w = history(&mut hr, hid, rs, len);
